@@ -2,6 +2,7 @@ pub mod convert_suite;
 pub mod finalize_suite;
 pub mod flatten_suite;
 pub mod groupby_suite;
+pub mod multi_suite;
 pub mod pipe_suite;
 pub mod subject_suite;
 pub mod share_suite;
